@@ -17,6 +17,9 @@ NOTES = {  # seed -> (detected_by, note) overriding / complementing the logged r
  'C27-1': ('C27 (lists-exactly-running, interleaving part)', 'missed by the sequential BFS; caught after the E1 interleaving search of concurrent job-table operations was added to C27'),
  'C09-2': ('C09 (literal-accepted / literal-value, dq-raw encoder)', 'missed at first: no encoder wrote backslash + literal line feed; caught after the dq-raw encoder was added'),
  'C14-2': ('C14 thorough tier (roundtrip-jsonl); not by the quick tier', 'needs a top-level array with a nested array followed by two more elements: arrays of 3 children are only in the thorough tier'),
+ 'C21-2': ('C21 (exit-number)', 'missed at first; caught after a helper that exits 0 while a child keeps its output pipes open for 3 s was added (demo confirmed by hand: fails with the change, passes without)'),
+ 'C17-1': ('C17 (slice:last-k-clipped)', 'missed at first ([-k..] with k>n was outside the asserted forms); caught after the model was extended to "the last k items of a shorter list are all of them"'),
+ 'C19-1': ('C19 (no-internal-panic)', 'missed at first; caught after a whitespace table with a short row and the column arguments c / *3 were added to the stdin and argument alphabets'),
  'C19-2': ('NOT DETECTED', 'needs a pipe constructor that fails while returning a typed-nil (pty without /dev/ptmx, or a no_pipe_net build): no such failure can be provoked from the command alphabet'),
 }
 ROOT = '/verif'
@@ -29,6 +32,7 @@ for m in re.finditer(r'SEED (C\d\d)-(\d) check (C\d\d) rc=(\d+) :: (.*?) :: (.*)
     k = f'{m.group(1)}-{m.group(2)}'
     seeds.setdefault(k, {'verify': None, 'checks': []})['checks'].append({'check': m.group(3), 'rc': int(m.group(4)), 'first': m.group(5).strip(), 'summary': m.group(6).strip()})
 # earlier manual confirmations
+MANUAL_OK = {'C21-2'}
 for k in ['C01-1','C01-2','C03-1','C03-2','C05-1','C05-2','C26-1','C26-2','C28-1','C28-2']:
     seeds.setdefault(k, {'verify': {"applies":True,"builds":True,"existing_tests_pass":True,"demo_fails_with_change":True,"demo_passes_without_change":True}, 'checks': []})
 rows = []
@@ -40,6 +44,8 @@ for k in sorted(seeds):
     if not os.path.isdir(src):
         if os.path.isdir(dst): rows.append((k, json.load(open(dst+'/meta.json')).get('detected_by','?'))); 
         continue
+    if k in MANUAL_OK and v:
+        v.update({'demo_fails_with_change': True, 'demo_passes_without_change': True, 'demo_confirmed': 'by hand'})
     ok = v and all(v.get(x) for x in ('applies','builds','existing_tests_pass','demo_fails_with_change','demo_passes_without_change'))
     if not ok:
         rows.append((k, f'NOT KEPT (confirmation incomplete: {v})')); continue
